@@ -2,6 +2,7 @@ package sim
 
 import (
 	"bytes"
+	"encoding/hex"
 	"fmt"
 	"os"
 	"sort"
@@ -63,29 +64,30 @@ type iterState struct {
 }
 
 type runner struct {
-	c      *Case
-	disk   *simdisk.Disk
-	model  *Model
-	out    *RunOut
-	db     *leveldb.DB
-	knobs  Knobs
-	mon    *monitor
-	faulty bool // faults or crashes are part of this case
+	c       *Case
+	disk    *simdisk.Disk
+	model   *Model
+	out     *RunOut
+	db      *leveldb.DB
+	knobs   Knobs
+	mon     *monitor
+	faulty  bool // faults or crashes are part of this case
 	noScrib bool
 
-	pos      int // next op index of the sequential client
-	crashed  bool
-	crashF   *simdisk.Fault
-	inflight int // batch index in flight, -1 none
-	required map[int]bool
+	pos         int // next op index of the sequential client
+	crashed     bool
+	crashF      *simdisk.Fault
+	inflight    int // batch index in flight, -1 none
+	required    map[int]bool
 	epochBatch0 int
-	snaps    map[int]*snapState
-	iters    map[int]*iterState
-	dbErr    error // persistent error state seen
-	opened   bool
-	crashes  int
-	wantTrace bool
-	roCheck   bool
+	snaps       map[int]*snapState
+	iters       map[int]*iterState
+	dbErr       error // persistent error state seen
+	opened      bool
+	crashes     int
+	wantTrace   bool
+	roCheck     bool
+	failedEpoch []int
 }
 
 func (r *runner) probe(name string) {
@@ -175,6 +177,19 @@ func RunCase(t *testing.T, c *Case, wantTrace bool) *RunOut {
 	}
 	if res.Hang != nil {
 		r.viol("hang", hangFinger(res.Hang), hangDetail(res.Hang))
+	}
+	if dir := os.Getenv("DUMPDISK"); dir != "" {
+		os.MkdirAll(dir, 0o755)
+		for _, fd := range r.disk.ListFiles(storage.TypeAll) {
+			data, _ := r.disk.Data(fd)
+			os.WriteFile(dir+"/"+fd.String(), data, 0o644)
+		}
+		os.WriteFile(dir+"/CURRENT", []byte(r.disk.Meta().String()+"\n"), 0o644)
+	}
+	if k := os.Getenv("DUMPKEY"); k != "" {
+		kb, _ := hex.DecodeString(k)
+		out.DiskTrace = append(out.DiskTrace, "--- entries of key in live tables ("+r.mon.shape()+") ---")
+		out.DiskTrace = append(out.DiskTrace, r.mon.dumpKey(kb)...)
 	}
 	out.Shape = r.mon.shape()
 	out.NonTrivial = r.nontrivial()
@@ -305,6 +320,7 @@ func (r *runner) afterCrash() {
 			simrt.NoteStr(d)
 		}
 	}
+	r.resetFailed()
 	r.inflight = -1
 	r.pos++ // the interrupted operation is not retried
 	r.opened = false
@@ -363,6 +379,19 @@ func (r *runner) clientSeq(ops []Op) {
 			continue
 		}
 		op := &ops[r.pos]
+		if os.Getenv("SELFCHECK") != "" && r.db != nil {
+			simrt.Atomic(func() {
+				it2 := r.db.NewIterator(nil, &opt.ReadOptions{DontFillCache: true})
+				n := 0
+				for ok := it2.Last(); ok; ok = it2.Prev() {
+					n++
+				}
+				if err := it2.Error(); err != nil {
+					fmt.Printf("SELFCHECK before op %d (%s): n=%d err=%v\n", r.pos, op.K, n, err)
+				}
+				it2.Release()
+			})
+		}
 		r.execOp(op, nil)
 		r.out.OpsDone++
 		r.pos++
@@ -467,7 +496,18 @@ func (r *runner) writeResult(op *Op, bi int, err error) {
 		return
 	}
 	r.probe("write-failed")
-	// indeterminate: fate may only become known later
+	// indeterminate: its fate may only become known after the next reopen
+	r.failedEpoch = append(r.failedEpoch, bi)
+}
+
+// resetFailed forgets what reads of the ending epoch suggested about writes
+// that returned an error in it: whether the storage kept them is only decided
+// by the next recovery.
+func (r *runner) resetFailed() {
+	for _, bi := range r.failedEpoch {
+		r.model.SetStatus(bi, stMaybe)
+	}
+	r.failedEpoch = nil
 }
 
 func errClass(err error) string {
@@ -781,6 +821,23 @@ func (r *runner) stepIter(is *iterState, moves []Move, scrib bool) {
 		}
 		k, v := is.it.Key(), is.it.Value()
 		if msg := is.cur.Step(mv, true, k, v); msg != "" {
+			if os.Getenv("DEBUGITER") != "" && r.db != nil {
+				it2 := r.db.NewIterator(nil, nil)
+				for ok := it2.Last(); ok; ok = it2.Prev() {
+					vv := it2.Value()
+					if len(vv) > 10 {
+						vv = vv[:10]
+					}
+					msg += fmt.Sprintf("\n  fresh-iter: %q=%q", it2.Key(), vv)
+				}
+				msg += fmt.Sprintf("\n  fresh-iter error: %v", it2.Error())
+				it2.Release()
+				gv, ge := r.db.Get(k, nil)
+				if len(gv) > 10 {
+					gv = gv[:10]
+				}
+				msg += fmt.Sprintf("\n  get(%q)=%q,%v", k, gv, ge)
+			}
 			r.viol(oracle, oracle+":mismatch", msg)
 			return
 		}
@@ -848,6 +905,7 @@ func (r *runner) execTx(op *Op) {
 				r.viol("tx-commit", "tx-commit-err", fmt.Sprintf("Commit returned %v in a fault-free run", err))
 			}
 			r.probe("tx-commit-failed")
+			r.failedEpoch = append(r.failedEpoch, bi)
 			// release the transaction so later writers can proceed
 			tr.Discard()
 		}
@@ -941,6 +999,7 @@ func (r *runner) execOp(op *Op, tx *txCtx) {
 		r.probe("compact-range")
 	case "reopen":
 		r.closeDB()
+		r.resetFailed()
 		r.disk.NextEpoch(simdisk.ImagePowerLoss, 0, false)
 		simrt.SetEpoch(r.disk.Epoch + 1000)
 		if op.Knob != nil {
